@@ -11,6 +11,8 @@ import numpy as np
 from .. import cards, rel, yrun
 from ..engine import digest
 
+HISTORY_SWEEP = True
+HISTORY_SWEEP_PER_PROCESS = 5  # each state already consists of several real runs
 ID = "C12"
 SF_KINDS = ["F2", "FL", "F3", "g1", "gL", "g4"]
 TARGETS = [(0.0, 1.0), (1.0, 2.0), (23.403, 49.618), (82.0, 208.0), (0.3, 1.0), (2.0, 3.0), (1.0, 1.0)]
@@ -60,6 +62,11 @@ def states(tier, seed):
         # PTO 2: light kernels and the asymptotic 'missing' pieces (one kernel object per log tower)
         for k, p, sc in itertools.product(["F2", "FL", "F3", "g1"], ["NC", "CC"], ["ZM-VFNS", "FFN03", "FONLL-FFN03"]):
             out.append({"mode": "rotation", "kind": k, "heavyness": "light", "process": p, "scheme": sc, "pto": 2, "Q2": 30.0, "Z": 82.0, "A": 208.0})
+    # O(a_s^3): the fl11 flavour class has its own weights (e_q times the flavour trace of the coupling), n_f = 4 and 5
+    for k, h, p, q2, (z, a) in itertools.product(["F2", "FL", "F3"], ["light", "total"], ["EM", "NC", "CC"], [10.0, 30.0], [(23.403, 49.618), (0.3, 1.0)]):
+        if tier == "quick" and (q2 == 10.0) != (p == "EM"):
+            continue
+        out.append({"mode": "rotation", "kind": k, "heavyness": h, "process": p, "scheme": "ZM-VFNS", "pto": 3, "Q2": q2, "Z": z, "A": a})
     for name in NAMED:
         for k, p, sc in itertools.product(["F2", "F3"], ["NC", "CC"], ["ZM-VFNS", "FFNS3"]):
             out.append({"mode": "named", "kind": k, "heavyness": "total", "process": p, "scheme": sc, "pto": 1, "Q2": 30.0, "name": name})
